@@ -21,7 +21,7 @@ use std::sync::Arc;
 
 use crossbeam_channel as cbc;
 use libfs::{
-    allocate_file, copy_file_bytes, copy_owner, copy_permissions, copy_timestamps, next_sparse_segments, probably_sparse, reflink, sync, FileType
+    allocate_file, copy_file_bytes, copy_owner, copy_permissions, copy_timestamps, is_same_file, next_sparse_segments, probably_sparse, reflink, sync, FileType
 };
 use log::{debug, error, info, warn};
 use walkdir::WalkDir;
@@ -44,6 +44,13 @@ impl CopyHandle {
     pub fn new(from: &Path, to: &Path, config: &Arc<Config>) -> Result<CopyHandle> {
         let infd = File::open(from)?;
         let metadata = infd.metadata()?;
+
+        // The destination may be the source itself under another name
+        // (./file, a symlink or a hard link to it); creating it would
+        // truncate the source.
+        if to.try_exists()? && is_same_file(from, to)? {
+            return Err(XcpError::DestinationExists("Source and destination are the same file.", to.to_path_buf()).into());
+        }
 
         if needs_backup(to, config)? {
             let backup = get_backup_path(to)?;
